@@ -40,7 +40,7 @@ class Def(object):
         for f in extra_params:
             binders += ' (%s : R -> R)' % f
         for p in self.params:
-            binders += ' (%s : R)' % p
+            binders += ' (%s : %s)' % (p, 'list R' if p in getattr(self, 'list_params', ()) else 'R')
         body = ''
         for n, e in self.lets:
             body += '  let %s := %s in\n' % (n, ir.to_coq(e))
@@ -141,13 +141,16 @@ class Translator(object):
 
     # ---- main entry
     def function(self, qualname, consts=None, capture=None, free_on_call=(), inline=(),
-                 name=None, param_order=None, drop_params=(), callees=None):
+                 name=None, param_order=None, drop_params=(), callees=None, list_params=(),
+                 skip_shape_returns=False):
         """consts: parameter/global name -> python constant (partial evaluation).
         capture: None (the return value) | ('assign', var, k[, unwrap_fn]) the k-th real-valued
         assignment to var (optionally unwrapping a call to unwrap_fn, e.g. 'ln')."""
         fn = self.find(qualname)
         st = _State(self, consts or {}, capture, set(free_on_call), set(inline))
         st.callees = dict(callees or {})
+        st.list_params = set(list_params)
+        st.skip_shape_returns = skip_shape_returns
         params = []
         defaults = dict()
         a = fn.args
@@ -159,6 +162,11 @@ class Translator(object):
                 continue
             if consts and nm in consts:
                 st.env[nm] = _const_ir(consts[nm])
+            elif nm in st.list_params:
+                st.used.add(nm)
+                st.used.add(nm + '_elt')
+                params.append(nm)
+                st.env[nm] = ('var', nm + '_elt')
             else:
                 v = st.fresh(nm)
                 params.append(v)
@@ -176,7 +184,11 @@ class Translator(object):
             params = [p for p in param_order if p in params] + [p for p in params if p not in param_order]
         h = hashlib.sha256(ast.get_source_segment(self.src, fn).encode()).hexdigest()
         d = Def(name or qualname.replace('.', '_'), params, st.lets, res, st.stats, h)
+        d.list_params = set(st.list_params)
         _prune(d)
+        for lp in sorted(st.list_params):
+            if ir.lifted(d.result, st.list_params) and (lp + '_elt') not in d.params:
+                d.params.append(lp + '_elt')   # an elementwise result: one more scalar argument
         return d
 
 
@@ -209,6 +221,8 @@ class _State(object):
         self.tr, self.capture = tr, capture
         self.free_on_call, self.inline = free_on_call, inline
         self.callees = {}
+        self.list_params = set()
+        self.skip_shape_returns = False
         self.consts = consts
         self.env = {}
         self.lets = []
@@ -233,6 +247,8 @@ class _State(object):
         """bind python variable to expression, through a let when non-trivial."""
         if e[0] in ('var', 'num', 'const', 'pi'):
             return e
+        if self.list_params and ir.lifted(e, self.list_params):
+            return e   # elementwise in a list parameter: stays inline (cannot be hoisted out of the map)
         v = self.fresh(name)
         self.lets.append((v, e))
         return ('var', v)
@@ -371,7 +387,14 @@ class _State(object):
         if all(isinstance(b, ast.Raise) for b in s.body) and not s.orelse:
             self.stats['guards_skipped'] += 1
             return None
+        if self.shape_query(s.test):
+            # `if np.prod(x.shape):` / `if np.ndim(s):` -- non-empty input / array-valued shift: body taken
+            self.stats['shape_conditions_assumed_true'] = self.stats.get('shape_conditions_assumed_true', 0) + 1
+            return self.block_result(s.body, env)
         if self.shape_only_test(s.test):
+            if self.skip_shape_returns and self.shape_return_chain(s, env):
+                self.stats['shape_special_cases_skipped'] = self.stats.get('shape_special_cases_skipped', 0) + 1
+                return None
             if self.shape_only_body(s.body, env) and self.shape_only_body(s.orelse, env):
                 self.stats['shape_branches_skipped'] += 1
                 return None
@@ -403,6 +426,29 @@ class _State(object):
                 self.count_assign(k, new)
                 env[k] = self.bind(k, new)
         return None
+
+    def shape_return_chain(self, s, env):
+        """if/elif chain on shapes whose bodies only return a reshaped argument (degenerate
+        single-row inputs): outside the per-slice model, covered by the correspondence run."""
+        def ok_body(body):
+            if len(body) == 1 and isinstance(body[0], ast.Return):
+                try:
+                    n_before = len(self.lets)
+                    v = self.expr(body[0].value, dict(env))
+                    del self.lets[n_before:]
+                except Untranslatable:
+                    return False
+                return v[0] in ('var', 'num') or (v[0] == 'tuple' and all(x[0] == 'num' for x in v[1]))
+            if len(body) == 1 and isinstance(body[0], ast.If):
+                return self.shape_return_chain(body[0], env)
+            return False
+        return ok_body(s.body) and (not s.orelse or ok_body(s.orelse))
+
+    def shape_query(self, t):
+        """np.prod(x.shape) / np.ndim(x) / x.shape used as a truth value (non-empty input)"""
+        if isinstance(t, ast.Call) and _dotted(t.func) in ('np.prod', 'np.ndim', 'len'):
+            return True
+        return False
 
     def shape_only_test(self, t):
         """a test that only inspects shapes/types (isinstance, .ndim, .shape, len)"""
@@ -451,7 +497,13 @@ class _State(object):
     # ---------------------------------------------------------------- conditions
     def cond(self, t, env):
         if isinstance(t, ast.BoolOp):
-            vals = [self.cond(v, env) for v in t.values]
+            vals = []
+            for v in t.values:
+                if self.shape_query(v):
+                    self.stats['shape_conditions_assumed_true'] = self.stats.get('shape_conditions_assumed_true', 0) + 1
+                    vals.append(('const', True))
+                else:
+                    vals.append(self.cond(v, env))
             isand = isinstance(t.op, ast.And)
             out = None
             for v in vals:
@@ -472,6 +524,17 @@ class _State(object):
             if op is None:
                 raise Untranslatable('comparison operator', t)
             a, b = self.expr(t.left, env), self.expr(t.comparators[0], env)
+            if a[0] == 'inf' or b[0] == 'inf':
+                # a real-valued (finite) quantity compared with an infinity: decided statically; the
+                # infinite case itself is outside the real-valued model (covered by the correspondence run)
+                self.stats['finite_vs_infinity_folded'] = self.stats.get('finite_vs_infinity_folded', 0) + 1
+                if a[0] == 'inf' and b[0] == 'inf':
+                    raise Untranslatable('comparison of two infinities', t)
+                if b[0] == 'inf':
+                    lt = b[1] > 0      # a < +inf is true, a < -inf is false
+                else:
+                    lt = a[1] < 0      # -inf < b is true, +inf < b is false
+                return ('const', {'<': lt, '<=': lt, '>': not lt, '>=': not lt, '==': False, '!=': True}[op])
             ca, cb = _pyconst(a), _pyconst(b)
             if ca is not _NOCONST and cb is not _NOCONST:
                 try:
@@ -529,8 +592,8 @@ class _State(object):
             d = _dotted(n)
             if d in ('np.pi', 'math.pi', 'numpy.pi'):
                 return ('pi',)
-            if d in ('np.inf',):
-                raise Untranslatable('infinity literal', n)
+            if d in ('np.inf', 'numpy.inf', 'math.inf'):
+                return ('inf', 1)
             if n.attr == 'T':
                 self.stats['shape_ops'] += 1
                 return self.expr(n.value, env)
@@ -547,7 +610,10 @@ class _State(object):
             raise Untranslatable('attribute %s' % d, n)
         if isinstance(n, ast.UnaryOp):
             if isinstance(n.op, ast.USub):
-                return self.fold(('neg', self.expr(n.operand, env)))
+                v = self.expr(n.operand, env)
+                if v[0] == 'inf':
+                    return ('inf', -v[1])
+                return self.fold(('neg', v))
             if isinstance(n.op, ast.UAdd):
                 return self.expr(n.operand, env)
             if isinstance(n.op, ast.Not):
@@ -614,7 +680,9 @@ class _State(object):
                             return ('tuple', [('const', o) for o in out])
                         return ('const', out)
                 raise Untranslatable('string method on data', n)
-            if meth in SHAPE_METHODS and d is not None and not d.startswith('np.'):
+            if meth == 'max' and not args and isinstance(recv, ast.Name) and recv.id in self.list_params:
+                return ('lmax', recv.id)
+            if meth in SHAPE_METHODS and (d is None or not d.startswith('np.')):
                 self.stats['shape_ops'] += 1
                 return self.expr(recv, env)
         if d is None:
@@ -640,8 +708,35 @@ class _State(object):
                 k = self.expr(args[1], env)
                 if k[0] == 'num' and k[1].denominator == 1 and 0 <= k[1] <= 8:
                     return ('pow', self.expr(args[0], env), int(k[1]))
+            if f == 'sum' and len(args) >= 1 and self.list_params:
+                body = self.expr(args[0], env)
+                ls = [v[:-4] for v in ir.free_vars(body, []) if v.endswith('_elt') and v[:-4] in self.list_params]
+                if len(ls) == 1:
+                    return ('lsum', ls[0], body)
+                raise Untranslatable('np.sum of a non-elementwise expression', n)
+            if f == 'max' and len(args) >= 1 and self.list_params:
+                body = self.expr(args[0], env)
+                if body[0] == 'var' and body[1].endswith('_elt') and body[1][:-4] in self.list_params:
+                    return ('lmax', body[1][:-4])
+                raise Untranslatable('np.max of an expression', n)
+            if f == 'isfinite' and len(args) == 1:
+                self.expr(args[0], env)
+                self.stats['isfinite_assumed_true'] = self.stats.get('isfinite_assumed_true', 0) + 1
+                return ('const', True)   # the real-valued model covers finite values; -inf is K's subject
+            if f == 'where' and len(args) == 3:
+                c = self.cond(args[0], env)
+                if c[0] == 'const':
+                    return self.expr(args[1] if c[1] else args[2], env)
+                return ('if', c, self.expr(args[1], env), self.expr(args[2], env))
+            if f in ('ndim', 'shape', 'prod') and len(args) == 1:
+                raise Untranslatable('shape query in a value position', n)
+            if f == 'reshape' and len(args) == 2:
+                self.stats['shape_ops'] += 1
+                return self.expr(args[0], env)
             if f in SHAPE_FUNCS and len(args) >= 1:
                 self.stats['shape_ops'] += 1
+                if isinstance(args[0], ast.List) and len(args[0].elts) == 1:
+                    return self.expr(args[0].elts[0], env)   # np.array([x]): a one-element wrapper
                 return self.expr(args[0], env)
             raise Untranslatable('numpy function %s' % f, n)
         if d == 'erf' and len(args) == 1:
